@@ -1,4 +1,5 @@
 import OomdProofs.Kill
+import OomdProps.C03
 
 /-!
 # C01 — Kill containment: only the chosen victim's processes are ever signalled
@@ -162,5 +163,23 @@ example : (runKill cfg0 rank0 [nd 2, nd 1 [nd 3] 5] env0).evs =
      .procs 1 (some [12]), .kill 12 1, .procs 3 (some []),
      .setxattr 1 .killT (.num 1) none 0, .setxattr 1 .killU (.num 1) none 0, .statKills, .kmsg 1 false, .pause 7] := by
   decide
+
+/-! ### containment on the prekill-hook resume path -/
+
+/-- **A resumed kill is carried out on the cgroup the hook was fired for, or not at all.**  The victim restored on the resuming
+tick has the serialised path *and* the serialised id; if no cgroup with that path and id exists any more (removed, or re-created
+under the same name) nothing is restored.  Together with `C07.recreated_not_killed` (no attempt at all in that case) and the
+containment theorems above (which hold for every attempt block): the signals of a deferred kill stay inside the subtree of the
+cgroup that was selected before the wait. -/
+theorem resumed_victim_is_the_selected_cgroup (top : List OomdModel.Kill.View) (r : OomdModel.Hook.SRef) :
+    (∀ v, OomdModel.Hook.deser top r = some v → v.id = r.id ∧ v.info.path = r.path) ∧
+    ((∀ v, OomdModel.Hook.findF r.path top = some v → v.id ≠ r.id) → OomdModel.Hook.deser top r = none) := by
+  constructor
+  · intro v h
+    have := C03.deser_ser h
+    cases r
+    simp only [OomdModel.Hook.ser, OomdModel.Hook.SRef.mk.injEq] at this
+    exact ⟨this.2, this.1⟩
+  · exact (OomdModel.Hook.deser_none_iff top r).2
 
 end C01
